@@ -118,6 +118,6 @@ func init() {
 			}
 			return out
 		},
-		Rule: "for every chance in {-1000,-5..105,1000}: one datagram x all 100 values of the Intn(100) draw, and streams of 2 and 3 datagrams x the boundary draws {0,chance-1,chance,99}; oracle: exactly one draw from [0,100) per datagram, forwarded iff draw >= chance (hence exactly clamp(chance,0,100) of the 100 equally likely draws drop), survivors byte-identical, in order, once",
+		Rule:        "for every chance in {-1000,-5..105,1000}: one datagram x all 100 values of the Intn(100) draw, and streams of 2 and 3 datagrams x the boundary draws {0,chance-1,chance,99}; oracle: exactly one draw from [0,100) per datagram, forwarded iff draw >= chance (hence exactly clamp(chance,0,100) of the 100 equally likely draws drop), survivors byte-identical, in order, once",
 		Assumptions: []string{"math/rand.Intn is uniform; the statistical clause of the property is replaced by exact enumeration of the draw space"}})
 }
